@@ -40,7 +40,7 @@ def strategy_(draw, tier):
             "slashes": draw(st.sampled_from([0, 0, 1, 2, 3])),
             "reach": draw(st.sampled_from(["abs", "rel", "dotrel", "via_link_dir", "via_link_chain"])),
             "uid": draw(st.sampled_from([1000, 0])),
-            "top": draw(st.sampled_from(["absent", "sticky"])),
+            "top": draw(st.sampled_from(["absent", "sticky", "absent", "xdev_fallback"])),
             "opts": draw(st.sampled_from([[], ["-v"], ["-f"], ["-r"], ["-d"]]))}
 
 
@@ -63,8 +63,17 @@ def run_case(case):
              {"p": TD + "/tree/sub/b", "t": "f", "c": "tree b"},
              {"p": TD + "/l2f", "t": "l", "to": "file"},
              {"p": TD + "/l2d", "t": "l", "to": "tree"}]
+    env = {"HOME": home}
+    xopts = []
     for v in ("/vol", "/vol2"):
-        nodes += gen.topdir_nodes(v, case["uid"], case["top"], "absent")
+        if case["top"] == "xdev_fallback":
+            # volume trash unusable + fallback enabled both ways: links on /vol are trashed into the
+            # home trash on another file system (symlink re-created there, original unlinked)
+            nodes += gen.topdir_nodes(v, case["uid"], "absent", "file")
+            env["TRASH_ENABLE_HOME_FALLBACK"] = "1"
+            xopts = ["--home-fallback"]
+        else:
+            nodes += gen.topdir_nodes(v, case["uid"], case["top"], "absent")
     tname = {"file": "file", "dir": "dir", "tree": "tree", "link_to_file": "l2f",
              "link_to_dir": "l2d", "nothing": "missing"}.get(case["target"])
     import posixpath
@@ -84,17 +93,17 @@ def run_case(case):
            "via_link_dir": "/data/ln/" + case["name"],
            "via_link_chain": "/data/chain/" + case["name"]}[case["reach"]]
     arg += "/" * case["slashes"]
-    spec = {"vols": vols, "nodes": nodes, "env": {"HOME": home}, "uid": case["uid"], "cwd": cwd,
+    spec = {"vols": vols, "nodes": nodes, "env": env, "uid": case["uid"], "cwd": cwd,
             "now": "2022-02-02T02:02:02"}
     sandbox.build_world(spec)
     before = sandbox.snapshot()
-    res = runner.run(spec, "trash-put", case["opts"] + ["--", arg])
+    res = runner.run(spec, "trash-put", xopts + case["opts"] + ["--", arg])
     after = sandbox.snapshot()
     crossvol = case["link_vol"] != case["target_vol"] and case["target"] not in ("self", "dotdot")
     tags = dict(target=case["target"], slashes=min(case["slashes"], 1), crossvol=crossvol)
     ident = putcheck.identity(before, arg, cwd)
     named = ident is not None and ident[1] == L
-    out.classes += ["target:" + case["target"], "form:" + case["form"], "reach:" + case["reach"],
+    out.classes += ["top:" + case["top"], "target:" + case["target"], "form:" + case["form"], "reach:" + case["reach"],
                     "slashes:%d" % case["slashes"], "crossvol:%s" % crossvol, "exit:%d" % res.code,
                     "named:%s" % named]
     # targets are never touched, whatever happens
@@ -148,7 +157,8 @@ def run_case(case):
                 out.fail("leftovers", "stray infos %s, orphan payloads %s" % (si[:2], sp[:2]), **tags)
     out.classes.append("state:" + state)
     out.key = [case["target"], case["form"], case["link_vol"], case["target_vol"],
-               min(case["slashes"], 2), case["reach"], gen.name_class(case["name"]), state]
+               min(case["slashes"], 2), case["reach"], gen.name_class(case["name"]), state,
+               case["top"] == "xdev_fallback"]
     out.sample = {"link": L, "text": text, "arg": arg, "state": state, "exit": res.code}
     return out
 
